@@ -41,7 +41,8 @@ import (
 //      and never exceeds 1 + the last offset in complete S3 segments of that partition.
 
 type c01hReq struct {
-	Fetch bool // phase 2 only: Fetch(partition of Parts[0], offset 0)
+	Fetch bool // phase 2 only: Fetch(partition of Parts[0], offset FetchOff)
+	FetchOff int64
 	Acks  int16
 	Parts []c01hPart
 }
@@ -63,6 +64,9 @@ type c01hPlan struct {
 	// by everything that can overtake it. Policy 0: picks decide.
 	Policy    int
 	SegBytes  int
+	// PartIDs are the two partitions the clients use: {0,1} or {1,10} (the decimal number of
+	// one is a prefix of the other's, so their S3 key prefixes are string prefixes too)
+	PartIDs   [2]int32
 	SegFaults []vfkit.FaultKind
 	IdxFaults []vfkit.FaultKind
 	Picks     []int
@@ -80,6 +84,7 @@ func c01hDrawReqs(t *rapid.T, maxReq int, withFetch bool) []c01hReq {
 		}
 		if withFetch && rapid.IntRange(0, 2).Draw(t, "fetchdie") == 0 {
 			r.Fetch = true
+			r.FetchOff = int64(rapid.SampledFrom([]int{0, 0, 0, 1, 2, 3, 5, 8}).Draw(t, "fetchoff"))
 		}
 		reqs = append(reqs, r)
 	}
@@ -114,6 +119,19 @@ func c01hDraw(t *rapid.T) c01hPlan {
 	p.SegFaults = rapid.SliceOfN(fk, 0, 8).Draw(t, "segfaults")
 	p.IdxFaults = rapid.SliceOfN(fk, 0, 8).Draw(t, "idxfaults")
 	p.Picks = rapid.SliceOfN(rapid.IntRange(0, 5), 0, 70).Draw(t, "picks")
+	p.PartIDs = [2]int32{0, 1}
+	if rapid.IntRange(0, 2).Draw(t, "prefixparts") == 0 {
+		p.PartIDs = [2]int32{1, 10}
+	}
+	for _, ws := range [][][]c01hReq{p.Workers, p.Workers2} {
+		for _, reqs := range ws {
+			for i := range reqs {
+				for k := range reqs[i].Parts {
+					reqs[i].Parts[k].Partition = p.PartIDs[reqs[i].Parts[k].Partition]
+				}
+			}
+		}
+	}
 	return p
 }
 
@@ -158,7 +176,7 @@ type c01hAck struct {
 }
 
 type c01hOut struct {
-	V01, V03, V05 []string
+	V01, V02, V03, V05 []string
 	Trace         []string
 	Acks          []c01hAck
 	Failed        bool
@@ -280,12 +298,12 @@ func c01hRun(t *testing.T, p c01hPlan) (out c01hOut) {
 		if p.AutoCreate {
 			inner = vfStoreWithTopics(map[string]int32{"other": 1})
 		} else {
-			inner = vfStoreWithTopics(map[string]int32{"orders": 2})
+			inner = vfStoreWithTopics(map[string]int32{"orders": p.PartIDs[1] + 1})
 		}
 		store := &c01hStore{Store: inner, sched: sched, gated: &gated, dead: &dead, mu: &mu}
 		opts := vfHandlerOpts{SegmentBytes: p.SegBytes, ReadAhead: 0, NoS3Backpressure: true}
 		if p.AutoCreate {
-			os.Setenv("KAFSCALE_AUTO_CREATE_PARTITIONS", "2")
+			os.Setenv("KAFSCALE_AUTO_CREATE_PARTITIONS", fmt.Sprint(p.PartIDs[1]+1))
 		} else {
 			os.Unsetenv("KAFSCALE_AUTO_CREATE_PARTITIONS")
 		}
@@ -302,11 +320,11 @@ func c01hRun(t *testing.T, p c01hPlan) (out c01hOut) {
 					for i, r := range reqs {
 						if r.Fetch {
 							part := r.Parts[0].Partition
-							sched.Gate(name, fmt.Sprintf("fetch %d", i))
+							sched.Gate(name, fmt.Sprintf("fetch %d @%d", i, r.FetchOff))
 							mu.Lock()
 							inFlight++
 							mu.Unlock()
-							fr, err := vfFetch(h, 11, "orders", part, 0, 1<<22)
+							fr, err := vfFetch(h, 11, "orders", part, r.FetchOff, 1<<22)
 							mu.Lock()
 							inFlight--
 							out.Fetches++
@@ -315,7 +333,22 @@ func c01hRun(t *testing.T, p c01hPlan) (out c01hOut) {
 							if err != nil || isDead || fr.ErrorCode != 0 {
 								continue
 							}
-							bs, _ := vfkit.DecodeBatchesLenient(fr.Records)
+							bs, used := vfkit.DecodeBatchesLenient(fr.Records)
+							if rest := fr.Records[used:]; len(rest) > 8 {
+								// the limit (4 MiB) is far above the log size, so nothing is cut off: what
+								// follows the last whole batch must still be the beginning of a produced batch
+								mu.Lock()
+								ok := false
+								for raw, owner := range sentBy {
+									if owner == part && strings.HasPrefix(raw, string(rest[8:])) {
+										ok = true
+									}
+								}
+								if !ok {
+									out.V03 = append(out.V03, fmt.Sprintf("fetch(partition %d, offset %d) returned %d trailing bytes after the last whole batch that are not the beginning of any batch produced to that partition: %x", part, r.FetchOff, len(rest), rest))
+								}
+								mu.Unlock()
+							}
 							for _, b := range bs {
 								mu.Lock()
 								owner, known := sentBy[string(b.Raw[8:])]
@@ -380,6 +413,7 @@ func c01hRun(t *testing.T, p c01hPlan) (out c01hOut) {
 							for _, o := range out.Acks {
 								if o.Partition == a.Partition && a.Base < o.Base+int64(o.Records) && o.Base < a.Base+int64(a.Records) {
 									out.V01 = append(out.V01, fmt.Sprintf("batches %s and %s of partition %d were both acknowledged at overlapping offsets (%d and %d): one of them cannot be in the log", o.Tag, a.Tag, a.Partition, o.Base, a.Base))
+									out.V02 = append(out.V02, fmt.Sprintf("offsets not unique: batches %s (%d records) and %s (%d records) of partition %d were acknowledged at base offsets %d and %d", o.Tag, o.Records, a.Tag, a.Records, a.Partition, o.Base, a.Base))
 								}
 							}
 							out.Acks = append(out.Acks, a)
@@ -523,6 +557,33 @@ func c01hRun(t *testing.T, p c01hPlan) (out c01hOut) {
 				out.V01 = append(out.V01, fmt.Sprintf("after restart: fetch(partition %d, offset %d) does not return acked batch %s", a.Partition, a.Base, a.Tag))
 			}
 		}
+		// C02: a consumer reading the partition from offset 0 to the high watermark sees
+		// strictly increasing, non-overlapping, gap-free offsets
+		for _, part := range p.PartIDs {
+			next := int64(0)
+			for guard := 0; guard < 200; guard++ {
+				fr, err := vfFetch(h3, 11, "orders", part, next, 1<<22)
+				if err != nil || fr.ErrorCode != 0 || next >= fr.HighWatermark {
+					break
+				}
+				bs, _ := vfkit.DecodeBatchesLenient(fr.Records)
+				if len(bs) == 0 {
+					break
+				}
+				for _, b := range bs {
+					last := b.BaseOffset + int64(b.LastOffsetDelta)
+					if last < next {
+						continue // the batches before the fetch offset that share its index entry
+					}
+					if b.BaseOffset > next {
+						out.V02 = append(out.V02, fmt.Sprintf("partition %d log read back after the run has a gap: offsets %d..%d are missing below the high watermark %d", part, next, b.BaseOffset-1, fr.HighWatermark))
+					} else if b.BaseOffset < next {
+						out.V02 = append(out.V02, fmt.Sprintf("partition %d log read back after the run has overlapping batches: batch %d..%d follows offset %d", part, b.BaseOffset, last, next-1))
+					}
+					next = last + 1
+				}
+			}
+		}
 	})
 	return out
 }
@@ -552,13 +613,15 @@ func c01hCheck(t *testing.T, focus string) {
 			nt = r.Fetches > 0 && r.ColdConc
 		case "C06":
 			nt = r.Crashed && len(r.Acks) > 0
+		case "C02":
+			nt = len(r.Acks) > 1 && (r.ColdConc || r.AutoRace || (r.Failed && r.Concurrent) || r.Crashed)
 		}
 		if nt {
 			if st.NonTrivial(fmt.Sprintf("%+v", p)) {
 				st.Sample(map[string]any{"plan": p, "trace": r.Trace, "acks": len(r.Acks), "published": r.Published})
 			}
 		}
-		for _, v := range append(append(append([]string{}, r.V01...), r.V05...), r.V03...) {
+		for _, v := range append(append(append(append([]string{}, r.V01...), r.V05...), r.V03...), r.V02...) {
 			if strings.HasPrefix(v, "harness:") {
 				rt.Fatalf("%s\ntrace %v", v, r.Trace)
 			}
@@ -572,6 +635,9 @@ func c01hCheck(t *testing.T, focus string) {
 		if focus == "C05" && len(r.V05) > 0 {
 			rt.Fatalf("C05 violated: %s\ntrace: %v\npublished: %v", strings.Join(r.V05, "\n"), r.Trace, r.Published)
 		}
+		if focus == "C02" && len(r.V02) > 0 {
+			rt.Fatalf("C02 violated: %s\ntrace: %v", strings.Join(r.V02, "\n"), r.Trace)
+		}
 		if focus == "C03" && len(r.V03) > 0 {
 			rt.Fatalf("C03 violated: %s\ntrace: %v", strings.Join(r.V03, "\n"), r.Trace)
 		}
@@ -580,5 +646,6 @@ func c01hCheck(t *testing.T, focus string) {
 
 func TestVF_C01_HandlerSched(t *testing.T) { c01hCheck(t, "C01") }
 func TestVF_C05_HandlerSched(t *testing.T) { c01hCheck(t, "C05") }
+func TestVF_C02_HandlerSched(t *testing.T) { c01hCheck(t, "C02") }
 func TestVF_C03_HandlerSched(t *testing.T) { c01hCheck(t, "C03") }
 func TestVF_C06_HandlerSched(t *testing.T) { c01hCheck(t, "C06") }
